@@ -13,6 +13,8 @@ package raft
 
 import (
 	"bytes"
+	"regexp"
+	"strconv"
 	"context"
 	"errors"
 	"fmt"
@@ -381,6 +383,7 @@ type c08Run struct {
 	wg      sync.WaitGroup
 	caughtUpOnly bool
 	failed  string
+	base    uint64 // raft's last index when the case began
 }
 
 func (r *c08Run) tracef(format string, a ...any) {
@@ -558,6 +561,7 @@ func TestVerif_C08_RaftLive(t *testing.T) {
 			rt.Fatalf("harness: backend not quiescent at case start")
 		}
 		caseStart := b.raft.LastIndex()
+		r.base = caseStart
 		env.gate.open.Store(false)
 		defer r.cleanup()
 
@@ -636,7 +640,7 @@ func TestVerif_C08_RaftLive(t *testing.T) {
 				key := r.prefix + c08Keys[a.Key]
 				e, err := t.tx.Get(ctx, key)
 				if err != nil {
-					rec.Violation(rt, "txn-get-error", r.detail(nil), "T%d get(%s): %v", t.ID, key, err)
+					rec.Violation(rt, "txn-get-error", r.detail(nil), "%s", r.norm(fmt.Sprintf("T%d get(%s): %v", t.ID, key, err)))
 					return
 				}
 				o := &c08Obs{Kind: "get", Key: key, Overlay: c08CopyOverlay(t.overlay), GotNil: e == nil}
@@ -659,13 +663,13 @@ func TestVerif_C08_RaftLive(t *testing.T) {
 				}
 				if t.RO {
 					if !errors.Is(err, physical.ErrTransactionReadOnly) {
-						rec.Violation(rt, "read-only-txn-accepts-write", r.detail(nil), "read-only T%d write(%s) returned %v", t.ID, key, err)
+						rec.Violation(rt, "read-only-txn-accepts-write", r.detail(nil), "%s", r.norm(fmt.Sprintf("read-only T%d write(%s) returned %v", t.ID, key, err)))
 						return
 					}
 					continue
 				}
 				if err != nil {
-					rec.Violation(rt, "txn-write-error", r.detail(nil), "T%d write(%s): %v", t.ID, key, err)
+					rec.Violation(rt, "txn-write-error", r.detail(nil), "%s", r.norm(fmt.Sprintf("T%d write(%s): %v", t.ID, key, err)))
 					return
 				}
 				t.Wrote = true
@@ -683,7 +687,7 @@ func TestVerif_C08_RaftLive(t *testing.T) {
 				o := &c08Obs{Kind: "list", Prefix: r.prefix + c08Prefixes[a.Pfx], After: c08Afters[a.After], Limit: c08Limits[a.Limit], Overlay: c08CopyOverlay(t.overlay)}
 				keys, err := t.tx.ListPage(ctx, o.Prefix, o.After, o.Limit)
 				if err != nil {
-					rec.Violation(rt, "txn-list-error", r.detail(nil), "T%d list(%s): %v", t.ID, o.Prefix, err)
+					rec.Violation(rt, "txn-list-error", r.detail(nil), "%s", r.norm(fmt.Sprintf("T%d list(%s): %v", t.ID, o.Prefix, err)))
 					return
 				}
 				o.GotList = keys
@@ -731,7 +735,7 @@ func TestVerif_C08_RaftLive(t *testing.T) {
 					continue
 				}
 				if err := t.tx.Rollback(ctx); err != nil {
-					rec.Violation(rt, "rollback-error", r.detail(nil), "T%d rollback: %v", t.ID, err)
+					rec.Violation(rt, "rollback-error", r.detail(nil), "%s", r.norm(fmt.Sprintf("T%d rollback: %v", t.ID, err)))
 					return
 				}
 				t.State = 2
@@ -747,7 +751,7 @@ func TestVerif_C08_RaftLive(t *testing.T) {
 				for i, e := range []error{err, err2, err3} {
 					// a finished read-only transaction may refuse the write with either error
 					if !errors.Is(e, physical.ErrTransactionAlreadyCommitted) && !(i == 1 && t.RO && errors.Is(e, physical.ErrTransactionReadOnly)) {
-						rec.Violation(rt, "finished-txn-usable", r.detail(nil), "T%d after %s: get/put/commit returned %v / %v / %v", t.ID, t.Finish, err, err2, err3)
+						rec.Violation(rt, "finished-txn-usable", r.detail(nil), "%s", r.norm(fmt.Sprintf("T%d after %s: get/put/commit returned %v / %v / %v", t.ID, t.Finish, err, err2, err3)))
 						return
 					}
 				}
@@ -757,7 +761,7 @@ func TestVerif_C08_RaftLive(t *testing.T) {
 			r.drain()
 		}
 		if r.failed != "" {
-			rt.Fatalf("harness: %s\ntrace:\n%s", r.failed, strings.Join(r.trace, "\n"))
+			rt.Fatalf("harness: %s\ntrace:\n%s", r.norm(r.failed), r.norm(strings.Join(r.trace, "\n")))
 		}
 		for _, t := range r.txns {
 			if t.State == 0 {
@@ -772,10 +776,39 @@ func TestVerif_C08_RaftLive(t *testing.T) {
 	})
 }
 
+var c08IndexRe = regexp.MustCompile(`@(\d+)`)
+
+// norm makes a text independent of the process history (rapid only shrinks a failure whose message is
+// reproduced literally): the case's key prefix becomes "P/", raft indexes become offsets from the case's first index.
+func (r *c08Run) norm(s string) string {
+	s = strings.ReplaceAll(s, r.prefix, "P/")
+	return c08IndexRe.ReplaceAllStringFunc(s, func(m string) string {
+		n, err := strconv.ParseUint(m[1:], 10, 64)
+		if err != nil {
+			return m
+		}
+		return fmt.Sprintf("@%+d", int64(n)-int64(r.base))
+	})
+}
+
+func (r *c08Run) normAny(v any) any {
+	switch x := v.(type) {
+	case string:
+		return r.norm(x)
+	case []string:
+		out := make([]string, len(x))
+		for i := range x {
+			out[i] = r.norm(x[i])
+		}
+		return out
+	}
+	return v
+}
+
 func (r *c08Run) detail(extra map[string]any) map[string]any {
-	m := map[string]any{"prefix": r.prefix, "trace": append([]string(nil), r.trace...), "beginOnlyWhenFSMCaughtUp": r.caughtUpOnly}
+	m := map[string]any{"trace": r.normAny(r.trace), "beginOnlyWhenFSMCaughtUp": r.caughtUpOnly}
 	for k, v := range extra {
-		m[k] = v
+		m[k] = r.normAny(v)
 	}
 	return m
 }
@@ -815,7 +848,7 @@ func c08DescribeEntry(e c08LogEntry) string {
 	var sb strings.Builder
 	fmt.Fprintf(&sb, "@%d", e.Index)
 	if e.Data.LowestActiveIndex != nil {
-		fmt.Fprintf(&sb, " lai=%d", *e.Data.LowestActiveIndex)
+		fmt.Fprintf(&sb, " lai=@%d", *e.Data.LowestActiveIndex)
 	}
 	for _, op := range e.Data.Operations {
 		switch op.OpType {
@@ -824,7 +857,11 @@ func c08DescribeEntry(e c08LogEntry) string {
 		case deleteOp:
 			fmt.Fprintf(&sb, " del %s", op.Key)
 		case beginTxOp:
-			fmt.Fprintf(&sb, " begin%s", op.Value)
+			if bp, err := parseBeginTxOpValue(op.Value); err == nil {
+				fmt.Fprintf(&sb, " begin(start=@%d)", bp.Index)
+			} else {
+				fmt.Fprintf(&sb, " begin%s", op.Value)
+			}
 		case commitTxOp:
 			sb.WriteString(" commit")
 		case verifyReadOp:
@@ -927,16 +964,16 @@ func c08Judge(rt *rapid.T, rec *verifx.Recorder, r *c08Run, caseStart uint64, ca
 		if len(changed) > 0 && t.Lag >= 1 {
 			nontrivial = true
 		}
-		extra := map[string]any{"txn": t.ID, "entry": line, "start_index": t.Start, "raft_applied_at_begin": t.RaftApplied, "lag_at_begin": t.Lag,
+		extra := map[string]any{"txn": t.ID, "entry": line, "start_index": fmt.Sprintf("@%d", t.Start), "raft_applied_at_begin": fmt.Sprintf("@%d", t.RaftApplied), "lag_at_begin": t.Lag,
 			"changed_observations": changed, "always_verify": av, "always_verify_mismatch": why}
 		switch {
 		case actualCommit && len(changed) > 0 && !av:
 			if t.Lag >= 1 {
 				flag("txn-start-behind-applied-index-not-verified", extra,
-					"T%d began at FSM index %d while raft's applied index was %d (%d batches queued), observed %v; its commit entry @%d was applied without verification and Commit returned nil",
+					"T%d began at FSM index @%d while raft's applied index was @%d (%d batches queued), observed %v; its commit entry @%d was applied without verification and Commit returned nil",
 					t.ID, t.Start, t.RaftApplied, t.Lag, changed, e.Index)
 			} else {
-				flag("stale-observation-committed", extra, "T%d (begun with the FSM caught up at %d) observed %v; Commit @%d returned nil", t.ID, t.Start, changed, e.Index)
+				flag("stale-observation-committed", extra, "T%d (begun with the FSM caught up at @%d) observed %v; Commit @%d returned nil", t.ID, t.Start, changed, e.Index)
 			}
 		case actualCommit && len(changed) > 0 && av:
 			sig := "verification-does-not-cover-observation"
@@ -992,7 +1029,7 @@ func c08Judge(rt *rapid.T, rec *verifx.Recorder, r *c08Run, caseStart uint64, ca
 		at := stateAt(t.Start)
 		for _, o := range t.Obs {
 			if want := c08Expect(o, at); want != o.got() {
-				flag("txn-read-differs-from-start-snapshot", map[string]any{"txn": t.ID, "start_index": t.Start, "state_at_start": at.dump()},
+				flag("txn-read-differs-from-start-snapshot", map[string]any{"txn": t.ID, "start_index": fmt.Sprintf("@%d", t.Start), "state_at_start": at.dump()},
 					"T%d (start @%d): %s, but the replay map at its start index (with its own writes) gives %s", t.ID, t.Start, o, want)
 			}
 		}
@@ -1046,9 +1083,9 @@ func c08Judge(rt *rapid.T, rec *verifx.Recorder, r *c08Run, caseStart uint64, ca
 	if first != nil {
 		d := render()
 		for k, v := range first.extra {
-			d[k] = v
+			d[k] = r.normAny(v)
 		}
-		rec.Violation(rt, first.sig, d, "%s", first.msg)
+		rec.Violation(rt, first.sig, d, "%s", r.norm(first.msg))
 	}
 }
 
